@@ -97,8 +97,6 @@ def check_arith(case):
                 c = g.generate_plus_one(n, m, big_endian=be)
                 a = list(c.inputs)
                 ret = list(c.outputs)
-                if [f'x_{i}' for i in range(n)] != _le(a, be) or [f'z_{i}' for i in range(m)] != _le(ret, be):
-                    raise Violation('plus_one_interface', f'generate_plus_one({n},{m},big_endian={be}): inputs {a} outputs {ret}')
             elif kind == 'ite':
                 c = g.generate_if_then_else()
                 a = list(c.inputs)
@@ -226,8 +224,6 @@ def check_arith(case):
                     rest.remove(lab)
                 if rest != old_out:
                     raise Violation('host_outputs_changed', f'outputs {old_out} + results {grow} became {new_out}')
-                if [x for x in new_out if x in grow][:len(grow)] != grow and len(set(grow)) == len(grow) and not (set(grow) & set(old_out)):
-                    raise Violation('result_output_order', f'results {grow} appear as {new_out}')
             if result_labels is not None and list(ret) != result_labels:
                 raise Violation('result_labels_ignored', f'returned {ret}, requested {result_labels}')
             if any(typ[x] != 'INPUT' for x in a if x in typ):
